@@ -91,8 +91,9 @@ def run(tier, only=None):
              "wall": time.time() - t0, "failed": [("audit", p) for p in problems], "nprops": accesses + len(mutable) + len(decls),
              "replay": {"reproduced": True, "text": "; ".join(problems)[:500], "bytes": "", "rc": None, "options": None, "output": "\n".join(problems)} if problems else None}
     rep.add([audit])
-    expl = ("Sequential reduction only: the schedule quantifier is NOT explored (CBMC aborts on pthread harnesses over this code: 'pointer handling for concurrency is unsound'; no other engine is installed). "
-            "Decided by solver: S2 from arbitrary initial contents a build leaves F[k] (a function of the constant tables) in every entry it writes and nothing else changes, idempotently; S3 named rows are grouped by letter, so every entry is stored at most once per build; "
+    expl = ("Reduced scope: general schedules are NOT explored (CBMC aborts on pthread harnesses over this code: 'pointer handling for concurrency is unsound'; no other engine is installed). "
+            "One class of interleavings IS decided by solver (c18.observe): goto-instrument --isr inserts, before every access to the two index arrays, a nondeterministic load by a reader in another thread; during a build that reader sees in any entry only its initial (0 or F[k]) or final value F[k] -- no transient value. "
+            "Decided sequentially by solver: S2 from arbitrary initial contents a build leaves F[k] (a function of the constant tables) in every entry it writes and nothing else changes, idempotently; S3 named rows are grouped by letter, so every entry is stored at most once per build; "
             "S4 every lookup returns the same result whether its index entry is 0 or F[k]. Audited syntactically on the LLVM IR of the current tree: S1 the only mutable static-storage objects are the two index arrays (plus the NOP byte arrays, referenced only through pointer-to-const), no non-re-entrant libc function is called; S5 every load/store through the two arrays is atomic. "
             "With per-location coherence of C11 atomics: every store by any thread writes F, every load returns 0 or F, lookups are insensitive to which, nothing else is shared. That last implication is an argument, not a query.")
     return rep.finish({"explanation": expl, "mutable_static_objects": mutable, "external_functions": decls, "atomic_accesses_checked": accesses},
